@@ -215,7 +215,7 @@ struct Stmt {
     Val dval; bool dconst = false; // S_SETDATA
     int ot = 0;                    // S_INSTALL_*
     int fm = 0;                    // S_INSTALL_CMP: member of the equality-function family (CM_*), S_INSTALL_CPY: of the copy-function family (CP_*)
-    int crash = 0;                 // S_CRASH: 1 = crashOnFailure(1) immediately followed by crashOnFailure(0)
+    int crash = 0;                 // S_CRASH: 1 = crashOnFailure(1) immediately followed by crashOnFailure(0); 2 = crashOnFailure(1) and left on (a counting crash method that returns is installed for every execution)
 };
 struct Scenario {
     std::vector<std::string> strs;
@@ -273,7 +273,7 @@ static std::string stmt_str(const Scenario& sc, const Stmt& st) {
     case S_SETDATA: s += std::string(st.dconst ? "setDataConst(" : "setData(") + st.fn + "," + val_str(sc, st.dval) + ")"; break;
     case S_GETDATA: s += "getData(" + st.fn + ")"; break;
     case S_INSTALL_CMP: case S_INSTALL_CPY: s += std::string(SK_NAME[st.k]) + "(" + OT_NAME[st.ot] + "," + (st.k == S_INSTALL_CMP ? CM_NAME[st.fm] : CP_NAME[st.fm]) + ")"; break;
-    case S_CRASH: s += st.crash ? "crashOnFailure(1);crashOnFailure(0)" : "crashOnFailure(0)"; break;
+    case S_CRASH: s += st.crash == 2 ? "crashOnFailure(1)" : st.crash ? "crashOnFailure(1);crashOnFailure(0)" : "crashOnFailure(0)"; break;
     default: s += std::string(SK_NAME[st.k]) + "()"; break;
     }
     return s;
@@ -296,6 +296,9 @@ struct Exec {
 static const Scenario* g_sc; static Exec* g_x;
 static std::vector<int> g_executed_kinds;     // statement kinds started by the C execution (evidence)
 static void logev(int stmt, const char* kind, const std::string& label, const std::string& value) { g_x->ev.push_back(Ev{ stmt, kind, label, value }); }
+// the crash method of every execution: counts and returns (crashOnFailure left on + a failing call: both interfaces must invoke it alike)
+static int g_cur_stmt = -1; static unsigned long g_crash_calls = 0;
+static void counting_crash_method() { g_crash_calls++; if (g_x) logev(g_cur_stmt, "crash-method", "", "invoked"); }
 
 // value formatting shared by both sides (tags are compared by name)
 static const char* CTAG[] = { "BOOL", "UNSIGNED_INTEGER", "INTEGER", "LONG_INTEGER", "UNSIGNED_LONG_INTEGER", "LONG_LONG_INTEGER", "UNSIGNED_LONG_LONG_INTEGER", "DOUBLE", "STRING", "POINTER", "CONST_POINTER", "FUNCTIONPOINTER", "MEMORYBUFFER", "OBJECT" };
@@ -525,16 +528,16 @@ static void cpp_stmt(const Scenario& sc, const Stmt& st, int i) {
     case S_INSTALL_CMP: m.installComparator(OT_NAME[st.ot], g_cmp[st.ot][st.fm]); break;
     case S_INSTALL_CPY: m.installCopier(OT_NAME[st.ot], g_cpy[st.fm]); break;
     case S_REMOVE_ALL: m.removeAllComparatorsAndCopiers(); break;
-    case S_CRASH: if (st.crash) m.crashOnFailure(true); mock(SCOPE[st.scope]).crashOnFailure(false); break;
+    case S_CRASH: if (st.crash) m.crashOnFailure(true); if (st.crash != 2) mock(SCOPE[st.scope]).crashOnFailure(false); break;
     }
 }
 static void body_cpp() {
     const Scenario& sc = *g_sc;
-    for (size_t i = 0; i < sc.stmts.size(); i++) { cpp_stmt(sc, sc.stmts[i], (int) i); logev((int) i, "done", "", ""); }
+    for (size_t i = 0; i < sc.stmts.size(); i++) { g_cur_stmt = (int) i; cpp_stmt(sc, sc.stmts[i], (int) i); logev((int) i, "done", "", ""); }
     g_x->bodyDone = true;
 }
 static void teardown_cpp() {
-    int T = (int) g_sc->stmts.size();
+    int T = (int) g_sc->stmts.size(); g_cur_stmt = T;
     logev(T, "left", "teardown", f_i(mock("").expectedCallsLeft() ? 1 : 0));
     for (int b = 0; b < OUT_BUFS; b++) logev(T, "out", "final-buf" + std::to_string(b), out_hex(b));
     mock("").checkExpectations();
@@ -750,16 +753,16 @@ static void c_stmt(const Scenario& sc, const Stmt& st, int i) {
     case S_INSTALL_CMP: SUP(installComparator)(OT_NAME[st.ot], EQ[st.ot][st.fm], STR[st.ot]); break;
     case S_INSTALL_CPY: SUP(installCopier)(OT_NAME[st.ot], CPY[st.fm]); break;
     case S_REMOVE_ALL: SUP(removeAllComparatorsAndCopiers)(); break;
-    case S_CRASH: if (st.crash) SUP(crashOnFailure)(1); S = c_entry(st); SUP(crashOnFailure)(0); break;
+    case S_CRASH: if (st.crash) SUP(crashOnFailure)(1); if (st.crash != 2) { S = c_entry(st); SUP(crashOnFailure)(0); } break;
     }
 }
 static void body_c() {
     const Scenario& sc = *g_sc;
-    for (size_t i = 0; i < sc.stmts.size(); i++) { c_stmt(sc, sc.stmts[i], (int) i); logev((int) i, "done", "", ""); }
+    for (size_t i = 0; i < sc.stmts.size(); i++) { g_cur_stmt = (int) i; c_stmt(sc, sc.stmts[i], (int) i); logev((int) i, "done", "", ""); }
     g_x->bodyDone = true;
 }
 static void teardown_c() {
-    int T = (int) g_sc->stmts.size();
+    int T = (int) g_sc->stmts.size(); g_cur_stmt = T;
     MockSupport_c* S = mock_c();
     logev(T, "left", "teardown", f_i(SUP(expectedCallsLeft)() != 0 ? 1 : 0));
     for (int b = 0; b < OUT_BUFS; b++) logev(T, "out", "final-buf" + std::to_string(b), out_hex(b));
@@ -794,6 +797,7 @@ static Exec run_exec(const Scenario& sc, bool viaC) {
     Exec x;
     memset(g_out, 0xEE, sizeof g_out);
     g_sc = &sc; g_x = &x; g_viaC = viaC;
+    UtestShell::setCrashMethod(counting_crash_method);
     {
         TestTestingFixture fx;
         fx.setTestFunction(viaC ? body_c : body_cpp);
@@ -802,7 +806,10 @@ static Exec run_exec(const Scenario& sc, bool viaC) {
         x.failures = fx.getFailureCount();
         x.text = mask_summary(fx.getOutput().asCharString());
     }
-    int P = (int) sc.stmts.size() + 1;
+    UtestShell::resetCrashMethod();
+    int P = (int) sc.stmts.size() + 1; g_cur_stmt = P;
+    // crashOnFailure may have been left on: switch it off on both reporters (the C interface's and the C++ one's)
+    { MockSupport_c* S = mock_c(); SUP(crashOnFailure)(0); mock("").crashOnFailure(false); }
     // clean up through the same interface, outside any test (what a C / C++ teardown would do)
     if (viaC) { MockSupport_c* S = mock_c(); SUP(clear)(); S = mock_c(); SUP(removeAllComparatorsAndCopiers)(); }
     else { mock("").clear(); mock("").removeAllComparatorsAndCopiers(); }
@@ -900,6 +907,11 @@ static bool compare_execs(vf::Ctx& c, const Scenario& sc, const Exec& cpp, const
         if (first && first->failures) key = std::string("verdict:") + (first == &cc ? "c" : "cpp") + "-fails-first:" + msgclass(*first) + ":at=" + where;
         else if (cpp.failures != cc.failures) key = "verdict:failure-count:" + mp + "~" + mc + ":at=" + where;
         else key = "control-flow:" + mp + "~" + mc + ":at=" + where;
+        // one execution invoked the crash method (crashOnFailure was left on) where the other did not
+        {
+            bool crP = k < cpp.ev.size() && cpp.ev[k].kind == "crash-method", crC = k < cc.ev.size() && cc.ev[k].kind == "crash-method";
+            if (crP != crC) key = std::string("crash-method:invoked-only-by-") + (crP ? "cpp" : "c") + ":crashOnFailure-left-on:at=" + where;
+        }
         // the repaired defect D19 has exactly this shape: its enumerated table gets the short key family (random scenarios keep the generic key,
         // an ignore/disable statement somewhere in a scenario does not prove that this call was the ignored one)
         const std::string d19 = "verdict:cpp-fails-first:getter-type-mismatch:at=actual:support.typed.";
@@ -948,6 +960,9 @@ static void run_scenario(vf::Ctx& c, const Scenario& sc) {
     Exec cpp = run_exec(sc, false);
     Exec cc = run_exec(sc, true);
     bool diverged = compare_execs(c, sc, cpp, cc);
+    { unsigned long np = 0, nc = 0; for (const Ev& e : cpp.ev) if (e.kind == "crash-method") np++; for (const Ev& e : cc.ev) if (e.kind == "crash-method") nc++;
+      if (np) c.count("crash_method_invocations_with_crashOnFailure_left_on:cpp", np); if (nc) c.count("crash_method_invocations_with_crashOnFailure_left_on:c", nc);
+      if (np && nc) { bool scoped = false; for (const Stmt& st : sc.stmts) if (st.k == S_CRASH && st.crash == 2 && st.scope != 0) scoped = true; if (scoped) c.count("scenarios_with_crash_method_invoked_by_both_after_crashOnFailure_through_a_scope"); } }
     // evidence
     static bool first = true;
     if (first) { first = false; for (const std::string& n : g_slot_names) c.count(n, 0); }
@@ -1193,7 +1208,7 @@ static void gen_random(vf::Rng& r, Scenario& sc, bool thorough, bool focusObjs =
     int pmut = failBias < 45 ? 0 : failBias < 80 ? 15 : 40;
     std::vector<Stmt>& S = sc.stmts;
 
-    if (r.chance(6)) { Stmt s = mk(S_CRASH, pickScope(), &r); s.crash = r.chance(50); S.push_back(s); }
+    if (r.chance(9)) { Stmt s = mk(S_CRASH, pickScope(), &r); s.crash = r.chance(35) ? 0 : r.chance(50) ? 1 : 2; S.push_back(s); }
     if (r.chance(4)) S.push_back(mk(S_REMOVE_ALL, 0, &r));
     if (useObjs) for (int ot = 0; ot < 2; ot++) {
         if (r.chance(85)) { Stmt s = mk(S_INSTALL_CMP, r.chance(70) ? 0 : mainScope, &r); s.ot = ot; s.fm = r.chance(50) ? CM_STRUCT : 1 + (int) r.below(CM_N - 1); S.push_back(s); }
@@ -1449,6 +1464,8 @@ static void build_forward_table() {
             T_FORWARD.push_back(sc);
         }
         for (int crash = 0; crash < 2; crash++) { Scenario sc; Stmt s = E(mk(S_CRASH, scope)); s.crash = crash; sc.stmts.push_back(s); sc.stmts.push_back(E(t_actual(scope, "q"))); T_FORWARD.push_back(sc); }
+        // crashOnFailure left on through scope cs, then a failing (unexpected) call in this scope, then another one after the first failure
+        for (int cs = 0; cs < 3; cs++) { Scenario sc; Stmt s = E(mk(S_CRASH, cs)); s.crash = 2; sc.stmts.push_back(s); sc.stmts.push_back(E(t_actual(scope, "q"))); T_FORWARD.push_back(sc); }
         for (int what = 0; what < 2; what++) {                                  // clear in the middle
             Scenario sc; sc.stmts.push_back(E(t_expect(scope, "f"))); Stmt d = E(mk(S_SETDATA, scope)); d.fn = "d0"; d.dval = mkint(V_UINT, 4000000000u); sc.stmts.push_back(d);
             sc.stmts.push_back(E(mk(S_CLEAR, what ? 0 : scope))); sc.stmts.push_back(E(mk(S_LEFT, scope))); Stmt gd = E(mk(S_GETDATA, scope)); gd.fn = "d0"; sc.stmts.push_back(gd);
